@@ -13,14 +13,6 @@ pub const C01: u8 = 1;
 pub const C03: u8 = 3;
 pub const C04: u8 = 4;
 
-#[macro_export]
-macro_rules! chk {
-    ($active:expr, $cond:expr, $msg:literal) => {
-        if $active {
-            kani::assert($cond, $msg);
-        }
-    };
-}
 use crate::chk;
 
 /// Output buffer with capacity `cap`, len 0.
